@@ -53,11 +53,16 @@ def gen_run(seed, tier, i):
         st = structures.gen_multi_group(s_struct, 2, 3)
     elif mode < 0.18:
         st = structures.gen_many(s_struct, 10, 13)
+    elif mode < 0.19:
+        st = structures.gen_large(s_struct, 30, 70)
     else:
         st = structures.gen_structure(s_struct, max_stems=6, max_len=3, knotted_bias=0.5, template_p=0.4)
     solver = s_cfg.choices(["sim", "none", "real-cbc"], [16, 3, 1])[0]
     # swarm: a random subset of ops is enabled per run, derivations favoured
     enabled = [o for o in OPS if s_cfg.random() < 0.6]
+    if st["family"].startswith("large"):
+        # the all-dot-brackets list is a product over the knotted groups: astronomically long here
+        enabled = [o for o in enabled if o != "all_dot_brackets"]
     for d in DERIVATIONS:
         if s_cfg.random() < 0.6 and d not in enabled:
             enabled.append(d)
